@@ -537,7 +537,7 @@ func runC07(c *Ctx) {
 	if c.Thorough() {
 		nGated, nFree, nPairs = 600, 60, 100000
 	}
-	c.R.Rule = fmt.Sprintf("(A) %d gate-controlled schedules per backend instance: 2–4 client threads with programs of put/get/head/delete/list/upload-part/complete over 1–3 keys; exactly one thread runs at a time, from one lock-free micro-step boundary (after the body is read, after the metadata merge) to the next, the thread to advance drawn from the seed; the Lean model executes the same micro-steps (cbegin/cmerge/ccommit, atomic steps for the rest) in the same order and every answer — body, length, ETag, version id, metadata, listing — must agree, and agree with the reference model that applies each upload at its commit step; (C) CompleteMultipartUpload parked inside the backend's PutObject while part uploads, ListParts and abort on the same upload are started, then released: every request must be answered (lock-order inversions show as requests that never return) and a completed object is the listed part; (E) pairs of overlapping requests: request A (put, overwrite, delete, copy, multi-delete, get, create/delete bucket) is parked at a verif gate or inside its critical section at the backend's TimeSource.Now() call, request B is started (it completes at once or waits for A's lock), A is released; the two answers and the state read back (bucket, both keys, listing) must equal those of one of the sequential orders A;B / B;A evaluated in the Lean model from a snapshot — over 5 pre-states × all request pairs × 3 park points (quick tier: a seeded sample); (D) contention on the memory backend: 16 clients × 1000 Backend-API uploads onto two keys of a versioned bucket, every acknowledged upload with its own version id that reads back exactly its bytes; (B) %d free-running histories per instance with 2–16 clients incl. slow uploaders, checked for linearizability against a per-key register (porcupine), on the memory backend half of them with versioning enabled (every acknowledged upload has its own version id and that id reads back exactly its bytes) and for body/length/ETag agreement of every read; non-trivial = distinct schedule", nGated, nFree)
+	c.R.Rule = fmt.Sprintf("(A) %d gate-controlled schedules per backend instance: 2–4 client threads with programs of put/get/head/delete/list/upload-part/complete over 1–3 keys; exactly one thread runs at a time, from one lock-free micro-step boundary (after the body is read, after the metadata merge) to the next, the thread to advance drawn from the seed; the Lean model executes the same micro-steps (cbegin/cmerge/ccommit, atomic steps for the rest) in the same order and every answer — body, length, ETag, version id, metadata, listing — must agree, and agree with the reference model that applies each upload at its commit step; (C) CompleteMultipartUpload parked inside the backend's PutObject while part uploads, ListParts and abort on the same upload are started, then released: every request must be answered (lock-order inversions show as requests that never return) and a completed object is the listed part; (E) pairs of overlapping requests: request A (put, overwrite, delete, copy, multi-delete, get, create/delete bucket) is parked at a verif gate or inside its critical section at the backend's TimeSource.Now() call, request B is started (it completes at once or waits for A's lock), A is released; the two answers and the state read back (bucket, both keys, listing) must equal those of one of the sequential orders A;B / B;A evaluated in the Lean model from a snapshot — over 5 pre-states × all request pairs × 3 park points (quick tier: a seeded sample); (E-v) on the memory backend additionally pairs of overlapping uploads / plain deletes onto ONE key of a versioned bucket under a clock that advances with every reading, 4 park points each, followed by 'upload once more, delete that newest version by id, read and list versions' — version ids, the order of the version stack and the version promoted must be those of a sequential order; (F) a slow reader on every backend instance: a download of a 40 KiB and of a 6 MiB object whose client stalls after the first 4 KiB while the key is overwritten must deliver one of the two bodies in full with that body's ETag and length; (D) contention on the memory backend: 16 clients × 1000 Backend-API uploads onto two keys of a versioned bucket, every acknowledged upload with its own version id that reads back exactly its bytes; (B) %d free-running histories per instance with 2–16 clients incl. slow uploaders, checked for linearizability against a per-key register (porcupine), on the memory backend half of them with versioning enabled (every acknowledged upload has its own version id and that id reads back exactly its bytes) and for body/length/ETag agreement of every read; non-trivial = distinct schedule", nGated, nFree)
 	for _, kind := range c.kinds(impl.AllKinds) {
 		for i := 0; i < nGated; i++ {
 			c07Gated(c, kind, 2+c.Rng.Intn(3), 2+c.Rng.Intn(4))
@@ -554,7 +554,9 @@ func runC07(c *Ctx) {
 		} else {
 			c07Pairs(c, kind, nPairs)
 		}
+		c07SlowReader(c, kind)
 		if kind == "mem" {
+			c07PairsVersioned(c)
 			rounds := 2
 			if c.Thorough() {
 				rounds = 12
